@@ -230,6 +230,14 @@ func runPair(r *vh.Rng, directed int) *pairScen {
 	// towards it - also while the user has not acted and while that frame is under way
 	racing := directed > 16 && rounds == 0 && r.Chance(25)
 	sc := &pairScen{cfg: cfg}
+	began := time.Now()
+	// the real handshake timers (10 s and more) must never expire by themselves during a scenario:
+	// a run that took longer than 7 s (machine under heavy load) is discarded and repeated
+	defer func() {
+		if time.Since(began) > 7*time.Second {
+			sc.discard = true
+		}
+	}()
 	trusted := false
 	var qcs, qsc []wireItem
 	cl := &side{out: &qcs, trusted: &trusted, cfg: &cfg}
